@@ -6,7 +6,9 @@ usage: seedcheck.py <name> <outdir> <demo-file> <test-regex> <pkg-dir> <PROP> [<
 1. fresh scratch worktree of /repo HEAD (outside /repo and /verif), demo copied in:
    demo must PASS without the change, FAIL with it; module must build; the pinned suite
    must pass exactly as at baseline.
-2. apply the patch to /repo itself, run ./check.sh <PROP> quick for each PROP, undo.
+2. apply the patch to a second scratch worktree (never to /repo: a killed run once left a
+   seeded change behind in /repo's working tree), run VERIF_REPO=<scratch> ./check.sh <PROP>
+   quick for each PROP, remove the worktree.
 3. keep everything as /verif/seeded/<name>/ (patch.diff, demo, meta.json).
 """
 import json, os, shutil, subprocess, sys, time
@@ -49,16 +51,21 @@ def main():
             print(out0[-1500:]); print(out1[-1500:]); print(outs[-800:])
     finally:
         sh("git -C /repo worktree remove --force %s" % wt)
-    # detection (one at a time: it patches /repo itself; confirmations may run in parallel)
+    # detection (one at a time: check.sh builds one shared binary; confirmations may run in
+    # parallel).  The patch goes into a scratch worktree, /repo itself is never touched.
     import fcntl
     lk = open("/tmp/seedcheck.detect.lock", "w")
     fcntl.flock(lk, fcntl.LOCK_EX)
-    rc, out = sh("git -C /repo status --porcelain")
-    assert out.strip() == "", "/repo not clean: " + out
-    rc, out = sh("git -C /repo apply %s" % patch)
+    det = "/tmp/seedrepo-" + name
+    sh("git -C /repo worktree remove --force %s" % det)
+    sh("git -C /repo worktree prune")
+    rc, out = sh("git -C /repo worktree add --detach %s HEAD" % det)
     assert rc == 0, out
+    ENV["VERIF_REPO"] = det
     meta["detection"] = {}
     try:
+        rc, out = sh("git apply %s" % patch, cwd=det)
+        assert rc == 0, out
         for p in props:
             t0 = time.time()
             rc, out = sh("./check.sh %s quick" % p, cwd="/verif")
@@ -74,9 +81,8 @@ def main():
                     print("  replay %s: exit=%d" % (os.path.basename(rp), rrc))
                     break
     finally:
-        sh("git -C /repo checkout -- .")
-    rc, out = sh("git -C /repo status --porcelain")
-    assert out.strip() == "", "/repo not restored: " + out
+        ENV.pop("VERIF_REPO", None)
+        sh("git -C /repo worktree remove --force %s" % det)
     dst = "/verif/seeded/" + name
     os.makedirs(dst, exist_ok=True)
     shutil.copy(patch, os.path.join(dst, "patch.diff"))
